@@ -454,6 +454,52 @@ fn main() {
         }
         cases.push(Case { class: if benign { "random-benign".into() } else { "random-hostile".into() }, cpp, start: None, ops });
     }
+    // (2b) hand-picked sequences around the fields written by more than one method / arm
+    {
+        let cfg = dir.join("rustfmt.toml").to_string_lossy().into_owned();
+        let seqs: Vec<Vec<(&str, Vec<String>)>> = vec![
+            vec![("rustfmt_configuration_file", vec![cfg.clone()]), ("formatter", vec!["none".into()])],
+            vec![("rustfmt_configuration_file", vec![cfg.clone()]), ("formatter", vec!["prettyplease".into()])],
+            vec![("formatter", vec!["none".into()]), ("rustfmt_configuration_file", vec![cfg.clone()])],
+            vec![("rustfmt_configuration_file", vec![cfg.clone()]), ("rustfmt_bindings", vec!["false".into()])],
+            vec![("rustfmt_configuration_file", vec!["@none".into()]), ("formatter", vec!["none".into()])],
+            vec![("derive_ord", vec!["true".into()]), ("derive_partialord", vec!["false".into()])],
+            vec![("derive_partialord", vec!["false".into()]), ("derive_ord", vec!["true".into()])],
+            vec![("derive_ord", vec!["true".into()]), ("derive_ord", vec!["false".into()])],
+            vec![("derive_eq", vec!["true".into()]), ("derive_partialeq", vec!["false".into()])],
+            vec![("derive_partialeq", vec!["true".into()]), ("derive_eq", vec!["true".into()]), ("derive_hash", vec!["true".into()])],
+            vec![("derive_eq", vec!["true".into()]), ("derive_eq", vec!["false".into()])],
+            vec![("derive_default", vec!["true".into()]), ("derive_default", vec!["false".into()])],
+            vec![("ignore_functions", vec![]), ("with_codegen_config", vec!["functions,types".into()])],
+            vec![("with_codegen_config", vec!["functions,types,methods".into()]), ("ignore_functions", vec![]), ("ignore_methods", vec![])],
+            vec![("ignore_methods", vec![]), ("ignore_functions", vec![])],
+            vec![("wasm_import_module_name", vec!["m1".into()]), ("extern_fn_block_attrs", vec!["#[allow(dead_code)]".into()]), ("wasm_import_module_name", vec!["m2".into()])],
+            vec![("blocklist_type", vec!["pt".into()]), ("blocklist_type", vec!["bf".into()]), ("blocklist_type", vec!["pt".into()])],
+            vec![("raw_line", vec!["// a".into()]), ("raw_line", vec!["// b".into()]), ("raw_line", vec!["// a".into()])],
+            vec![("layout_tests", vec!["false".into()]), ("layout_tests", vec!["true".into()])],
+        ];
+        for (k, sq) in seqs.into_iter().enumerate() {
+            for cpp in [false, true] {
+                let mut ops = header_op(&dir, cpp);
+                for (m, a) in &sq { ops.push(Op { m: m.to_string(), a: a.clone() }); }
+                cases.push(Case { class: format!("sequence:{k}"), cpp, start: None, ops });
+            }
+        }
+    }
+    // (3b) hash-map ordered options with many keys: does the second flag list come out in another order?
+    for k in 0..(if thorough { 120 } else { 12 }) {
+        let mut ops = header_op(&dir, false);
+        let n = rng.range(3, 14);
+        for _ in 0..n {
+            if k % 2 == 0 {
+                ops.push(Op { m: "module_raw_line".into(), a: vec![format!("root::m{}", rng.below(40)), format!("// line {}", rng.below(1000))] });
+            } else {
+                let abis = ["C", "stdcall", "efiapi", "fastcall", "aapcs", "win64", "C-unwind", "system"];
+                ops.push(Op { m: "override_abi".into(), a: vec![abis[rng.below(abis.len() as u64) as usize].into(), format!("fn_{}", rng.below(50))] });
+            }
+        }
+        cases.push(Case { class: "hash-order".into(), cpp: false, start: None, ops });
+    }
     // (4) CLI-origin configurations (callbacks that only the CLI can create, aliases, `=` forms)
     let th = dir.join("t.h").to_string_lossy().into_owned();
     for fl in [
@@ -588,13 +634,30 @@ fn main() {
         *outcome_hist.entry(key).or_default() += 1;
         // which known region explains the failure?
         let only_hash = failures.iter().all(|f| f == "flag lists differ in hash-map order only");
+        // a region explains the failure only if the MODEL's outcome is the one that region predicts
+        let dec = |h: &str| unhx(h).unwrap_or_default();
+        let sig = |k: &str| -> bool {
+            let parts: Vec<&str> = mrt.split(':').collect();
+            match k {
+                "type_alias_flag" => parts.len() >= 3 && parts[1] == "unknownFlag" && dec(parts[2]) == "--type-alias",
+                "leading_dash" => parts.len() >= 2 && (parts[1] == "leadingDash" || parts[1] == "unknownFlag" || parts[1] == "missingValue"),
+                "empty_codegen_config" => parts.len() >= 3 && parts[1] == "badValue" && dec(parts[2]) == "--generate",
+                "relative_rustfmt_path" => parts.len() >= 3 && parts[1] == "badValue" && dec(parts[2]) == "--rustfmt-configuration-file",
+                "field_attr_codec" => (parts.len() >= 3 && parts[1] == "badValue" && dec(parts[2]) == "--field-attr") || mdiff.split(',').any(|f| f == "field_attr_patterns"),
+                "formatter_override" => mrt == "ok" && mdiff.split(',').any(|f| f == "formatter"),
+                "prefix_link_name_lost" => mrt == "ok" && mdiff.split(',').any(|f| f == "parse_callbacks"),
+                "no_header" => mrt == "err:noHeader" || mrt != "ok",
+                _ => false,
+            }
+        };
         let explained: Option<&str> =
             if only_hash && reg.contains("hash_order") { Some("hash_order") }
             else if !predicted && failures.iter().all(|f| f.starts_with("bindings differ") || f.starts_with("b2 does not generate")) && reg.contains("not_expressible") { Some("not_expressible") }
             else if !predicted { None }
             else {
-                ["type_alias_flag", "leading_dash", "empty_codegen_config", "relative_rustfmt_path", "formatter_override", "field_attr_codec", "prefix_link_name_lost", "not_expressible", "no_header", "hash_order"]
-                    .iter().copied().find(|k| reg.contains(k))
+                ["type_alias_flag", "leading_dash", "empty_codegen_config", "relative_rustfmt_path", "formatter_override", "field_attr_codec", "prefix_link_name_lost", "no_header"]
+                    .iter().copied().find(|k| reg.contains(k) && sig(k))
+                    .or_else(|| if reg.contains("not_expressible") { Some("not_expressible") } else { None })
             };
         // prefix_link_name: the model predicts the loss through the callback's empty cli_args (flags2 == flags, diff on parse_callbacks)
         match explained {
